@@ -626,6 +626,15 @@ func (fx *FuncExec) havocLoop(ps *pathState, li *LoopInfo) {
 				return 0, false
 			}
 			return rootSlice(x.X, depth+1)
+		case *ssa.Call:
+			// the result of append shares its first operand's array or is a fresh one
+			if bi, ok := x.Common().Value.(*ssa.Builtin); ok && bi.Name() == "append" {
+				return rootSlice(x.Common().Args[0], depth+1)
+			}
+		case *ssa.Const:
+			if x.Value == nil {
+				return 0, true
+			}
 		case *ssa.UnOp:
 			if x.Op == token.MUL {
 				// slice value loaded from a location; if the location is reassigned in the loop the
@@ -712,6 +721,17 @@ func (fx *FuncExec) havocLoop(ps *pathState, li *LoopInfo) {
 						} else {
 							heapAll = true
 					heapWhy = append(heapWhy, "7")
+						}
+					case "append":
+						if fx.con != nil && fx.con.AppendInPlace {
+							if id, ok := rootSlice(cc.Args[0], 0); ok {
+								if id != 0 {
+									targets = append(targets, target{arr: id})
+								}
+							} else {
+								heapAll = true
+								heapWhy = append(heapWhy, "append-in-place")
+							}
 						}
 					case "delete", "clear":
 						if u, ok := cc.Args[0].(*ssa.UnOp); ok && u.Op == token.MUL {
@@ -1024,6 +1044,29 @@ func (fx *FuncExec) appendBuiltin(ps *pathState, x *ssa.Call) {
 		} else {
 			st.regs[x] = st.freshVal(x.Type(), x.Name(), 0)
 			return
+		}
+	}
+	nl0 := tAdd(sv.Len, tv.Len)
+	if fx.con != nil && fx.con.AppendInPlace && sv.Arr != 0 {
+		// the other outcome of append: the operand has room, the new elements are written into its
+		// backing array (visible through every slice that shares it)
+		fits := tLe(nl0, sv.Cap)
+		if dseq, ok := st.objs[sv.Arr].(SeqV); ok && fits.S != "false" {
+			f := ps.fork()
+			f.trail = append(f.trail, "append-in-place")
+			f.st.assume(fits)
+			nt := fx.pk.seqTreeOf(c, elemTypeOfSeq(dseq), "appip", false)
+			lo := tAdd(sv.Off, sv.Len)
+			if tv.Arr != 0 {
+				if sseq, ok := f.st.objs[tv.Arr].(SeqV); ok {
+					fx.seqCopyFacts(f.st, nt, sseq.Tree, lo, tv.Off, tv.Len)
+				}
+			}
+			fx.seqKeepFacts(f.st, nt, dseq.Tree, lo, tAdd(lo, tv.Len))
+			f.st.objs[sv.Arr] = SeqV{Tree: nt, N: dseq.N, Typ: dseq.Typ}
+			f.st.regs[x] = SliceV{Arr: sv.Arr, Off: sv.Off, Len: nl0, Cap: sv.Cap, Nil: tFalse, Typ: x.Type()}
+			ps.midFork = f
+			st.assume(tNot(fits))
 		}
 	}
 	id := c.newObj()
